@@ -81,6 +81,19 @@ CHECKS = {
              'headers/Vary and body decoding (JSON/XML/custom) to exactly to_dict().',
         note='Accept headers come from a small unambiguous grammar (general negotiation is C11, not claimed); strings are '
              'restricted to XML-representable characters; handlers raising non-HTTP exceptions are not generated.'),
+    'C05': dict(
+        level='fault_enumeration', ref='DESIGN.md section 4 (C05)',
+        technique=TECH + 'per sampled responder the fault point is swept: response stream raises / yields empty or None at '
+                  'read i, ASGI send() fails at send j, WSGI server abandons iteration after chunk j, SSE client disconnect; '
+                  'independent PEP 3333 and ASGI HTTP monitors, precedence/length/type model, stream close-count',
+        text='Fault enumeration over stream and send failure points: generated responders (status forms x method x any '
+             'subset of text/data/media/stream kinds, SSE, preset headers, cookies, custom Response class) run on a real '
+             'falcon.App (with/without wsgi.file_wrapper) and falcon.asgi.App (simulated loop, send back-pressure); each '
+             'fault point gets its own run. Oracles: protocol monitors written from PEP 3333 / ASGI spec, body precedence '
+             'against a reference renderer, Content-Length equals bytes sent, no body bytes for HEAD/1xx/204/304, no '
+             'framework-supplied Content-Type on 204/304 and one elsewhere, close() exactly once after streaming began.',
+        note='With media set, preset Content-Types are limited to ones a default handler serves; SSE is generated alone; '
+             'after a fault the delivered bytes must be a prefix of the expected body (no final event demanded).'),
 }
 
 NOT_YET = {p: 'claimed in DESIGN.md; check under construction in this round (not yet registered)' for p in
